@@ -139,3 +139,14 @@ Fixpoint while_rounds {S : Type} (fuel : nat) (st : S) (cond : S -> outcome bool
     | Datatypes.S fuel' => do st' <- body st ; while_rounds fuel' st' cond body
     end
   else Val st.
+
+(* `xs.iter().rposition(|&x| p)` *)
+Fixpoint iter_rposition (p : Z -> bool) (l : list Z) : option Z :=
+  match l with
+  | [] => None
+  | x :: t =>
+      match iter_rposition p t with
+      | Some n => Some (n + 1)
+      | None => if p x then Some 0 else None
+      end
+  end.
